@@ -89,7 +89,7 @@ func (w *vC04World) genScript(r *rand.Rand, i int) *vC04Script {
 		}
 		return w.names[j]
 	}
-	shape := r.Intn(12)
+	shape := r.Intn(15)
 	if i == len(w.names)-1 && shape >= 4 && shape <= 8 {
 		shape = 0
 	}
@@ -111,6 +111,12 @@ func (w *vC04World) genScript(r *rand.Rand, i int) *vC04Script {
 		m.Ns = append(m.Ns, vC04SOA(vC04Zone, ttl, []uint32{2, 7, 30, 600}[r.Intn(4)]))
 	case shape == 10:
 		m.Ns = append(m.Ns, vC04SOA(vC04Zone, ttl, []uint32{2, 7, 30, 600}[r.Intn(4)]))
+	case shape == 12: // bare NXDOMAIN: no SOA, nothing in any section (cached for the floor)
+		m.Rcode = dns.RcodeNameError
+	case shape == 13: // bare NODATA: empty NOERROR
+	case shape == 14: // NXDOMAIN whose only authority record is not an SOA
+		m.Rcode = dns.RcodeNameError
+		m.Ns = append(m.Ns, &dns.NS{Hdr: hdr(vC04Zone, dns.TypeNS), Ns: "ns1." + vC04Zone})
 	default:
 		if r.Intn(3) == 0 {
 			m.Rcode = dns.RcodeServerFailure
